@@ -328,7 +328,10 @@ def txnOf (s : State) : Op → Option (List Rec)
       if live.length ≤ 1 then none
       else
         some ((if (mergedRows s.disk s.mem ti.id).isEmpty then [] else [Rec.addRowSet ti.id s.mem.nextR]) ++
-          live.map fun r => Rec.deleteRowSet ti.id r)
+          (live.map fun r => Rec.deleteRowSet ti.id r) ++
+          -- (/repo 5071ff5) the delete vectors of the removed row-sets are deleted with them
+          live.flatMap fun r =>
+            (s.mem.dvs.filter fun x => x.1 == ti.id && x.2.1 == r).map fun x => Rec.deleteDV ti.id r x.2.2)
 
 /-- Steps that only create files nothing references yet (write-ahead part of a statement). -/
 def dataSteps (s : State) : Op → List PStep
